@@ -29,7 +29,10 @@ import (
 //     newLayerWriter(outfile)).
 //
 // `if x := e; cond` puts its body under (cond with x replaced by e, true) and its
-// else branch under (…, false); a body guarded by `<err> != nil` is the error
+// else branch under (…, false); conditions have one spelling (`X != Y` is
+// (`X == Y`, false), `!e` is (e, false)); the statements after an `if` one of whose
+// branches always returns run under the other branch's condition, so
+// `if c { A; return }; B` and `if !c { B; return }; A` give the same facts; a body guarded by `<err> != nil` is the error
 // path and is skipped (the model threads errors through a result monad); a loop
 // body is under ("for <header>", true); `return` is listed as the pseudo call
 // "return", or "fail" when it returns a fresh error (fmt.Errorf(...), a non-nil
@@ -319,6 +322,60 @@ func genC10() {
 			return norm(t)
 		}
 		guard := func(c string, pol bool) string { return fmt.Sprintf("(%s, %v)", coqStr(c), pol) }
+		// one fact, one spelling: `X != Y` is (`X == Y`, false), `!e` is (e, false)
+		var canon func(c ast.Expr, subst map[string]string) (string, bool)
+		canon = func(c ast.Expr, subst map[string]string) (string, bool) {
+			switch x := c.(type) {
+			case *ast.ParenExpr:
+				return canon(x.X, subst)
+			case *ast.UnaryExpr:
+				if x.Op == token.NOT {
+					t, pol := canon(x.X, subst)
+					return t, !pol
+				}
+			case *ast.BinaryExpr:
+				if x.Op == token.NEQ {
+					return condText(&ast.BinaryExpr{X: x.X, Op: token.EQL, Y: x.Y}, subst), false
+				}
+			}
+			return condText(c, subst), true
+		}
+		isErrCond := func(c ast.Expr) bool {
+			return errCond.MatchString(exprText(c)) || strings.HasPrefix(exprText(c), "errors.Is(")
+		}
+		ifSubst := func(x *ast.IfStmt, subst map[string]string) map[string]string {
+			sub := map[string]string{}
+			for k, v := range subst {
+				sub[k] = v
+			}
+			if as, ok := x.Init.(*ast.AssignStmt); ok && as.Tok == token.DEFINE && len(as.Lhs) == 1 && len(as.Rhs) == 1 {
+				if id, ok := as.Lhs[0].(*ast.Ident); ok {
+					if _, isCall := as.Rhs[0].(*ast.CallExpr); !isCall {
+						sub[id.Name] = exprText(as.Rhs[0])
+					}
+				}
+			}
+			return sub
+		}
+		// does control never fall out of the end of s?
+		var terminates func(s ast.Stmt) bool
+		terminates = func(s ast.Stmt) bool {
+			switch x := s.(type) {
+			case *ast.ReturnStmt:
+				return true
+			case *ast.BlockStmt:
+				return len(x.List) > 0 && terminates(x.List[len(x.List)-1])
+			case *ast.IfStmt:
+				return x.Else != nil && terminates(x.Body) && terminates(x.Else)
+			case *ast.ExprStmt:
+				if c, ok := x.X.(*ast.CallExpr); ok {
+					if id, ok := c.Fun.(*ast.Ident); ok && id.Name == "panic" {
+						return true
+					}
+				}
+			}
+			return false
+		}
 		var stmt func(guards []string, s ast.Stmt, subst map[string]string)
 		stmt = func(guards []string, s ast.Stmt, subst map[string]string) {
 			switch x := s.(type) {
@@ -326,32 +383,22 @@ func genC10() {
 			case *ast.BlockStmt:
 				block(guards, x.List, subst)
 			case *ast.IfStmt:
-				sub := map[string]string{}
-				for k, v := range subst {
-					sub[k] = v
-				}
 				if x.Init != nil {
 					stmt(guards, x.Init, subst)
-					if as, ok := x.Init.(*ast.AssignStmt); ok && as.Tok == token.DEFINE && len(as.Lhs) == 1 && len(as.Rhs) == 1 {
-						if id, ok := as.Lhs[0].(*ast.Ident); ok {
-							if _, isCall := as.Rhs[0].(*ast.CallExpr); !isCall {
-								sub[id.Name] = exprText(as.Rhs[0])
-							}
-						}
-					}
 				}
+				sub := ifSubst(x, subst)
 				calls(guards, x.Cond)
-				ct := condText(x.Cond, sub)
-				if errCond.MatchString(exprText(x.Cond)) || strings.HasPrefix(exprText(x.Cond), "errors.Is(") {
+				if isErrCond(x.Cond) {
 					// error path: not part of the step order
 					if x.Else != nil {
 						stmt(guards, x.Else, sub)
 					}
 					return
 				}
-				stmt(append(append([]string{}, guards...), guard(ct, true)), x.Body, sub)
+				ct, pol := canon(x.Cond, sub)
+				stmt(append(append([]string{}, guards...), guard(ct, pol)), x.Body, sub)
 				if x.Else != nil {
-					stmt(append(append([]string{}, guards...), guard(ct, false)), x.Else, sub)
+					stmt(append(append([]string{}, guards...), guard(ct, !pol)), x.Else, sub)
 				}
 			case *ast.ForStmt:
 				h := "for"
@@ -410,6 +457,18 @@ func genC10() {
 		block = func(guards []string, list []ast.Stmt, subst map[string]string) {
 			for _, s := range list {
 				stmt(guards, s, subst)
+				// what follows an `if` one of whose branches never falls through runs under the other branch's condition
+				if x, ok := s.(*ast.IfStmt); ok && !isErrCond(x.Cond) {
+					ct, pol := canon(x.Cond, ifSubst(x, subst))
+					bodyEnds := terminates(x.Body)
+					elseEnds := x.Else != nil && terminates(x.Else)
+					switch {
+					case bodyEnds && !elseEnds:
+						guards = append(append([]string{}, guards...), guard(ct, !pol))
+					case elseEnds && !bodyEnds:
+						guards = append(append([]string{}, guards...), guard(ct, pol))
+					}
+				}
 			}
 		}
 		block(nil, fd.Body.List, map[string]string{})
